@@ -53,7 +53,8 @@ enum { O_BLK0, O_BLK1, O_T0, O_T50, O_TNEG, O_KA0, O_KA1, O_BACKLOG, O_BIND, O_L
        O_PCONN, O_PSEND, O_PCLOSE, O_SENDTO, O_RECVFROM, O_PSENDTO, O_ACC_NBRECV, O_CONN_SILENT, NOPS };
 static const char *ON[NOPS] = {"nonblocking", "blocking", "timeout0", "timeout50", "timeout-5", "keepalive0", "keepalive1", "backlog3", "bind", "listen", "connect-listening", "connect-closed-port", "accept", "send", "receive", "wait-in", "shutdown-w", "shutdown-rw", "close",
                                "peer-connects", "peer-sends", "peer-closes", "send_to", "receive_from", "peer-send_to", "accepted-socket-nonblocking-receive", "connect-silent-peer"};
-static int DGRAM, FAM;
+static int DGRAM, FAM, FROMFD;          /* FROMFD: the socket under test is built by p_socket_new_from_fd around a descriptor the harness made (kinds stream-fd / dgram-fd) */
+static const char *KINDNAME = "stream";
 
 /* reference model of the socket under test (documented behaviour, see DESIGN.md C10) */
 typedef struct { int blocking, timeout, keepalive, backlog, listening, connected, closed, bound; int rx, peer_closed, pending, peer_listening, have_peer_conn, shut_w; int acc_open; } Ref;
@@ -121,7 +122,7 @@ static void viol(const char *sig, const char *fmt, ...)
     if (replay_mode) printf("  !! %s: %s\n", sig, buf);
     for (i = 0; i < nsigs; i++) if (!strcmp(sigs[i].sig, sig)) { sigs[i].n++; return; }
     if (nsigs < 64) { strcpy(sigs[nsigs].sig, sig); sigs[nsigs].n = 1; nsigs++; }
-    snprintf(rp, sizeof rp, "sock_bfs replay %s %d %s", DGRAM ? "dgram" : "stream", FAM, cur_hist);
+    snprintf(rp, sizeof rp, "sock_bfs replay %s %d %s", KINDNAME, FAM, cur_hist);
     hout_viol("C10", sig, rp, "[%s, %s, IPv%d] history [%s]: %s", ENVNAME, DGRAM ? "datagram" : "stream", FAM, cur_hist, buf);
 }
 static int native_family(void) { return FAM == 6 ? AF_INET6 : AF_INET; }
@@ -138,10 +139,11 @@ static int sut_port(void) { PSocketAddress *a = p_socket_get_local_address(sut, 
 static void hist_begin(void)
 {
     env_reset();
-    sut = p_socket_new(FAM == 6 ? P_SOCKET_FAMILY_INET6 : P_SOCKET_FAMILY_INET, DGRAM ? P_SOCKET_TYPE_DATAGRAM : P_SOCKET_TYPE_STREAM, DGRAM ? P_SOCKET_PROTOCOL_UDP : P_SOCKET_PROTOCOL_TCP, NULL);
+    if (FROMFD) { int fd = socket(native_family(), DGRAM ? SOCK_DGRAM : SOCK_STREAM, 0); if (fd < 0) { perror("socket"); exit(2); } sut = p_socket_new_from_fd(fd, NULL); }
+    else sut = p_socket_new(FAM == 6 ? P_SOCKET_FAMILY_INET6 : P_SOCKET_FAMILY_INET, DGRAM ? P_SOCKET_TYPE_DATAGRAM : P_SOCKET_TYPE_STREAM, DGRAM ? P_SOCKET_PROTOCOL_UDP : P_SOCKET_PROTOCOL_TCP, NULL);
     acc = NULL; peer_listen = peer_conn = peer_dg = peer_fill = -1;
     if (!sut) { fprintf(stderr, "p_socket_new failed\n"); exit(2); }
-    if (env_cloexec(p_socket_get_fd(sut)) != 1) viol("fd-flags/new-not-cloexec", "descriptor of a new socket does not carry close-on-exec");
+    if (!FROMFD && env_cloexec(p_socket_get_fd(sut)) != 1) viol("fd-flags/new-not-cloexec", "descriptor of a new socket does not carry close-on-exec");
 }
 static void hist_end(void)
 {
@@ -329,7 +331,7 @@ int main(int argc, char **argv)
     int depth, s, i; FILE *tf = NULL; long mismatches = 0, checked = 0;
     if (argc < 5) return 2;
     hout_open(); p_libsys_init();
-    DGRAM = !strcmp(argv[2], "dgram"); FAM = atoi(argv[3]);
+    KINDNAME = argv[2]; DGRAM = !strncmp(argv[2], "dgram", 5); FROMFD = strstr(argv[2], "-fd") != NULL; FAM = atoi(argv[3]);
     if (!strcmp(argv[1], "replay")) {
         unsigned char h[64]; int n = 0, eb; const char *p = argv[4];
         replay_mode = 1; while (*p && n < 64) { h[n++] = (unsigned char)strtol(p, (char **)&p, 10); if (*p == '.') p++; }
